@@ -18,12 +18,18 @@ Summary (model with the retype rule, i.e. after the F19 fix)
   restriction, in any state), `reachable_retained`, `unreachable_deleted`.
 * T5 `nothing_tagged_changes`.
 * Retype rule: `retype_tagged_refused`, `retype_tagged_unchanged`.
+* F42 (a child is followed under the media type it is stored with AND under the one the
+  parent declares for it): `refersTo_iff_reach` / `taggedRefersTo_iff_reachable` are now about
+  a `Reach` with the constructor `stepAs`; new `taggedRefersTo_declared`,
+  `declared_reference_retained`, `declared_reference_manifest_retained`,
+  `declared_reference_retained_run`, witness `Witness.sF_layer_protected`.
 * Histories (false before the fix): `reachable_retained_run`,
   `reachable_manifest_retained_run`, `reachable_delete_denied_run`,
   `referenced_retained_run`, under `DecFunctional`/`ManOK` and collision-freeness on
   the pushed manifest bytes.
 -/
 import OciModel.MemImmutable
+import OciModel.ManifestDecodeLemmas
 
 namespace OciModel.Props.C14
 open OciModel.Mem
@@ -199,14 +205,19 @@ theorem referenced_manifest_retained {s : State} (him : s.immutableTags = true)
 
 /-! ### T4: transitive references -/
 
+-- F42: `Reach` follows a stored manifest under its stored media type (`step`) and under the
+-- media type the reference declares for it (`stepAs`)
 /-- `refersTo` is exactly depth-bounded reachability. -/
 theorem refersTo_iff_reach (rp : Repo) (target : Bytes) (fuel : Nat) (refs : List RefInfo) :
     refersTo rp target fuel refs = true ↔ Reach rp fuel refs target :=
   Mem.refersTo_iff_reach rp target fuel refs
 
-/-- The fuel `manifests.length + 2` is never a restriction, in any state whatsoever:
-the check equals reachability at *any* depth. (A shortest reference path visits each
-stored manifest at most once; cycles, e.g. through dangling subjects, do no harm.) -/
+-- F42: the fuel is `3 * manifests.length + 2` (was `manifests.length + 2`) and `ReachU` has `stepAs`
+/-- The fuel `3 * manifests.length + 2` is never a restriction, in any state whatsoever:
+the check equals reachability at *any* depth. (A shortest reference path continues from
+each of the at most three reference lists of a stored manifest — under its stored media
+type, as an image manifest, as an image index — at most once; cycles, e.g. through
+dangling subjects, do no harm.) -/
 theorem taggedRefersTo_iff_reachable (rp : Repo) (target : Bytes) :
     taggedRefersTo rp target = true ↔ ReachU rp (tagRefs rp) target :=
   taggedRefersTo_iff rp target
@@ -235,6 +246,61 @@ theorem unreachable_deleted {s : State} {r x : Bytes} {rp : Repo} {bx : Blob}
   cases h : taggedRefersTo rp x with
   | false => rfl
   | true => exact absurd ((taggedRefersTo_iff rp x).1 h) hunreach
+
+/-! ### F42: a child is followed under the media type its parent declares for it
+
+The same bytes can be stored under another media type as long as no tag leads to them
+(the retype rule only protects what a tag leads to). A tagged index pushed afterwards
+that lists them under the first media type is read, by whoever pulls it, as leading to
+what the bytes reference under that media type. `refersTo` follows a stored manifest
+under its stored media type (F15) and under the declared one (`refsAs`). -/
+
+/-- What the stored bytes decode to under a media type other than the stored one is
+what `refsAs` gives. -/
+theorem refsAs_of_decode {b : Blob} {mt : Bytes} {rs : List RefInfo}
+    (hne : mt ≠ b.mediaType) (hdec : ManifestDecode.decodeRefs mt b.data = .refs rs) : refsAs b mt = rs := by
+  unfold refsAs
+  rw [if_neg hne, hdec]
+
+theorem mem_refsAs {b : Blob} {mt : Bytes} {rs : List RefInfo} {cref : RefInfo}
+    (hne : mt ≠ b.mediaType) (hdec : ManifestDecode.decodeRefs mt b.data = .refs rs) (hc : cref ∈ rs) :
+    cref ∈ refsAs b mt := by
+  rw [refsAs_of_decode hne hdec]
+  exact hc
+
+/-- Reachability at depth 3: tag → its manifest → a child manifest, read as the media
+type the reference declares for it → one of the references it then has. -/
+theorem taggedRefersTo_declared {rp : Repo} {t : Bytes} {d : Desc} {b child : Blob} {ref cref : RefInfo}
+    (ht : alookup t rp.tags = some d) (hm : alookup d.digest rp.manifests = some b) (href : ref ∈ b.refs)
+    (hk : ref.kind = 1 ∨ ref.kind = 2) (hc : alookup ref.desc.digest rp.manifests = some child)
+    (hcref : cref ∈ refsAs child ref.desc.mediaType) :
+    taggedRefersTo rp cref.desc.digest = true :=
+  (taggedRefersTo_iff rp _).2
+    ⟨3, .step (mem_tagRefs ht) (.inl rfl) hm (.stepAs href hk hc (.here hcref rfl))⟩
+
+/-- **The F42 guarantee.** A blob that a child manifest references under the media type
+the tagged parent declares for it — whatever media type the child is stored with —
+cannot be deleted: the call is `DENIED` and the state is unchanged. -/
+theorem declared_reference_retained {s : State} (him : s.immutableTags = true)
+    {r t : Bytes} {rp : Repo} {d : Desc} {b child x : Blob} {ref cref : RefInfo}
+    (hg : getRepo s r = some rp) (ht : alookup t rp.tags = some d)
+    (hm : alookup d.digest rp.manifests = some b) (href : ref ∈ b.refs)
+    (hk : ref.kind = 1 ∨ ref.kind = 2) (hc : alookup ref.desc.digest rp.manifests = some child)
+    (hcref : cref ∈ refsAs child ref.desc.mediaType)
+    (hpres : alookup cref.desc.digest rp.blobs = some x) :
+    step H s (.deleteBlob r cref.desc.digest) = (s, .err "DENIED") :=
+  deleteBlob_denied H him hg hpres (taggedRefersTo_declared ht hm href hk hc hcref)
+
+/-- The same for a manifest the child references under the declared media type. -/
+theorem declared_reference_manifest_retained {s : State} (him : s.immutableTags = true)
+    {r t : Bytes} {rp : Repo} {d : Desc} {b child x : Blob} {ref cref : RefInfo}
+    (hg : getRepo s r = some rp) (ht : alookup t rp.tags = some d)
+    (hm : alookup d.digest rp.manifests = some b) (href : ref ∈ b.refs)
+    (hk : ref.kind = 1 ∨ ref.kind = 2) (hc : alookup ref.desc.digest rp.manifests = some child)
+    (hcref : cref ∈ refsAs child ref.desc.mediaType)
+    (hpres : alookup cref.desc.digest rp.manifests = some x) :
+    step H s (.deleteManifest r cref.desc.digest) = (s, .err "DENIED") :=
+  deleteManifest_denied H him hg hpres (taggedRefersTo_declared ht hm href hk hc hcref)
 
 /-! ### T5: pushing to an existing tag changes nothing -/
 
@@ -383,6 +449,26 @@ theorem referenced_retained_run {s : State} (him : s.immutableTags = true) (hinv
   obtain ⟨rp', b', hg', _, hb', hh⟩ := reachable_retained_run H decOf D him hinv hok hinj hrb hops
   exact ⟨b', by simp [blobFor, hg', hb'], hh⟩
 
+/-- **The F42 guarantee over histories.** A stored blob that a child manifest references
+under the media type the tagged parent declares for it is, after every history, still
+stored, and deleting it is still `DENIED`. -/
+theorem declared_reference_retained_run {s : State} (him : s.immutableTags = true) (hinv : Inv H s)
+    (hok : ManOK decOf D s) (hinj : ∀ a b, D a → D b → H a = H b → a = b)
+    {r t : Bytes} {rp : Repo} {d : Desc} {b child x : Blob} {ref cref : RefInfo}
+    (hg : getRepo s r = some rp) (ht : alookup t rp.tags = some d)
+    (hm : alookup d.digest rp.manifests = some b) (href : ref ∈ b.refs)
+    (hk : ref.kind = 1 ∨ ref.kind = 2) (hc : alookup ref.desc.digest rp.manifests = some child)
+    (hcref : cref ∈ refsAs child ref.desc.mediaType)
+    (hpres : alookup cref.desc.digest rp.blobs = some x) {ops : List Op} (hops : DecFunctional decOf D ops) :
+    (∃ x', blobFor (run H s ops).1 r cref.desc.digest = .ok x' ∧ H x'.data = cref.desc.digest) ∧
+    step H (run H s ops).1 (.deleteBlob r cref.desc.digest) = ((run H s ops).1, .err "DENIED") := by
+  have hrb : ReachableBlob H s r cref.desc.digest :=
+    ⟨rp, x, hg, (taggedRefersTo_iff rp _).1 (taggedRefersTo_declared ht hm href hk hc hcref), hpres,
+      (hinv r rp hg).1 _ _ hpres⟩
+  refine ⟨?_, reachable_delete_denied_run H decOf D him hinv hok hinj hrb hops⟩
+  obtain ⟨rp', b', hg', _, hb', hh⟩ := reachable_retained_run H decOf D him hinv hok hinj hrb hops
+  exact ⟨b', by simp [blobFor, hg', hb'], hh⟩
+
 end
 
 /-! ### Concrete witnesses
@@ -519,6 +605,54 @@ example (ops : List Op) (hops : DecFunctional decOfW DW ops) :
       rcases List.mem_cons.1 hop with rfl | h
       · exact ⟨rfl, by decide⟩
       · exact hops op h)
+
+/-! #### The former defect (F42) is gone
+
+The state the F42 history ends in: the image manifest `mF` (one layer, a config) was
+pushed untagged, its bytes were pushed again untagged under the media type `mtOther`
+ocimem cannot look inside (allowed: no tag led to them), then an index listing them
+*as an image manifest* was pushed with the tag `v1`. The bytes are the model's own
+rendering of the manifest (`Json.print (manifestJ mF)`), decoded by the model's decoder
+(`decodeRefs_manifest`). -/
+
+def cfgDesc : Desc := ⟨mtLayer, Hc [2, 2, 2], 3⟩
+def mF : ManifestDecode.Manifest := ⟨cfgDesc, [layerDesc], none⟩
+def mFbytes : Bytes := Json.print (ManifestDecode.manifestJ mF)
+def kM : Bytes := [77]                     -- the digest of `mFbytes` (no theorem used here looks at `H`)
+def kI : Bytes := [73]
+def mtIndex : Bytes := [120]
+/-- the child as it is stored now: under `mtOther`, referencing nothing -/
+def mBlobF : Blob := ⟨mtOther, mFbytes, [], []⟩
+def childRef : RefInfo := ⟨1, ⟨ManifestDecode.imageMT, kM, 2⟩⟩
+def iBlobF : Blob := ⟨mtIndex, [7, 7, 7], [], [childRef]⟩
+def rpF : Repo := ⟨[(tag0, ⟨mtIndex, kI, 3⟩)], [(kI, iBlobF), (kM, mBlobF)], [(Hc layer, lBlob)], []⟩
+def sF : State := ⟨true, [(r0, rpF)], 0⟩
+
+theorem mF_ok : mF.OK := by
+  refine ⟨by decide, ?_, ?_⟩
+  · intro d hd
+    simp only [mF, List.mem_cons, List.not_mem_nil, or_false] at hd
+    subst hd; decide
+  · intro d hd; cases hd
+
+/-- Read as an image manifest — the media type the index declares — the child's bytes
+reference the layer and the config. -/
+theorem mBlobF_refsAs : refsAs mBlobF ManifestDecode.imageMT = [⟨0, layerDesc⟩, ⟨0, cfgDesc⟩] := by
+  have h := ManifestDecode.decodeRefs_manifest mF mF_ok [] [] rfl rfl
+  simp only [List.nil_append, List.append_nil] at h
+  exact refsAs_of_decode (b := mBlobF) (by decide) h
+
+/-- Stored as it is — under `mtOther` — the child references nothing: before the repair
+of F42 the layer was not reachable from `v1`. -/
+example : mBlobF.refs = [] := rfl
+
+/-- F42 on `sF`: the layer of the retyped child of the tagged index cannot be deleted. -/
+theorem sF_layer_protected : step Hc sF (.deleteBlob r0 layerDesc.digest) = (sF, .err "DENIED") :=
+  declared_reference_retained Hc (s := sF) (rp := rpF) (t := tag0) (d := ⟨mtIndex, kI, 3⟩) (b := iBlobF)
+    (child := mBlobF) (x := lBlob) (ref := childRef) (cref := ⟨0, layerDesc⟩)
+    rfl rfl rfl rfl List.mem_cons_self (.inl rfl) rfl
+    (by rw [show childRef.desc.mediaType = ManifestDecode.imageMT from rfl, mBlobF_refsAs]; exact List.mem_cons_self)
+    rfl
 
 end Witness
 
